@@ -119,6 +119,27 @@ class C01(Prop):
                 d.meta = dict(c.meta, kind="other-thread")
                 extra.append(d)
         out += extra
+        # an error type WITHOUT payload (`Subject<Val, ()>`, harness field `uniterr`), the subscriber's three closures glued on in
+        # either order: the grammar must not depend on what the error type is (seed C01-9 completed the downstream after the
+        # error handler when size_of::<Err>() == 0).  The model is the same hot pipeline; an error prints as E0.
+        rngU = random.Random(seed + 102)
+        for i in range(400 if tier == "quick" else 4000):
+            evs = [["sub"]]
+            for _ in range(rngU.randint(1, 7)):
+                r = rngU.random()
+                if r < 0.55:
+                    evs.append(["emit", "0", ["n", str(rngU.randint(0, 9))]])
+                elif r < 0.75:
+                    evs.append(["emit", "0", ["e", "0"]])
+                elif r < 0.92:
+                    evs.append(["emit", "0", "c"])
+                else:
+                    evs.append(["unsub"])
+            mapped = i % 3 == 0
+            pipe = ["map", "add1", ["hot", "0"]] if mapped else ["hot", "0"]
+            fields = [("uniterr", [("ec", "ce")[i % 2]]), ("closure", ["1"])] + ([("umap", ["1"])] if mapped else []) \
+                + [("pipe", [pipe])]
+            out.append(Case("pipe", ("local", "threads")[(i // 2) % 2], fields, evs, {"kind": "unit-error"}))
         out = tg.with_units(seed, out)
         # merge_all / group_by / share (theorems C01M_* over their own models): a sample of the populations of
         # C05, C20 and C11, full lines compared, grammar oracle per delivered stream
@@ -218,7 +239,14 @@ class C01(Prop):
         if case.suite == "coop":
             return len(case.events)
         # two subscriptions of one pipeline value (field `twosubs`) have no model: the oracle decides
-        return len(case.events) if case.field("twosubs") else 0
+        if case.field("twosubs"):
+            return len(case.events)
+        # pipelines with a flattening node (C16's inner-producer family) have no chain model either: grammar oracle only
+        f = case.field("pipe")
+        from .. import timegen as tgm
+        if f and tgm._heads_of(f[0], set()) & {"flatmap", "concatmap", "mergemap"}:
+            return len(case.events)
+        return 0
 
     def oracle(self, case, lines, model_lines=None):
         if case.suite == "coop":
